@@ -439,9 +439,9 @@ Qed.
 Definition is_treq (p : pub) : Prop :=
   exists b rn del key val, p_subj p = SubjBackendRoom b rn /\ p_msg p = ARoomReq (ATransient del key val).
 
-(* the operations for which the step of the induction is proved here.  Not covered: a join (OJoin), the requests of
-   an internal client (OInternal), the delivery of a publication other than a transient room request; a resume is
-   covered when the queue it flushes holds no hello reply (no queue ever does; that invariant is not proved here). *)
+(* the operations for which the step of the induction is proved in THIS file.  The others - a join (OJoin), the requests
+   of an internal client (OInternal), the delivery of the other publications - are in proofs/Hub_transient_join.v and
+   proofs/Hub_transient_run.v (ri_step_all covers every operation). *)
 Definition covered (h : hub) (o : op) : Prop :=
   match o with
   | OJoin _ _ _ _ | OInternal _ _ => False
